@@ -142,6 +142,8 @@ def replay_results(ctx, binname, focus, scn_path, n_scn, mode, scale="none", lab
     for _, sig, desc, rp in sorted(found, key=lambda x: x[0]):
         ctx.violation(sig, desc, rp)
     ctx.cov["scenarios_replayed"] += n_scn
+    routes = ctx.cov.setdefault("routes", {})
+    routes[mode] = routes.get(mode, 0) + n_scn
     ctx.cov["traces_validated_against_impl"] += n_scn
     return judged, unjudged
 
@@ -236,6 +238,8 @@ def record_and_validate(ctx, binname, focus, mode, steps):
     info = ctx.harness(binname, "random", "--seed", ctx.seed, "--steps", steps, "--out", out, "--mode", mode,
                        "--nonpos-fills", 1 if focus == "c15" else 0)
     validate_trace(ctx, out, focus, mode, "random/" + mode)
+    routes = ctx.cov.setdefault("routes_traced_calls", {})
+    routes[mode] = routes.get(mode, 0) + info.get("events", 0)
     return info
 
 
